@@ -32,6 +32,20 @@ fn main() {
         let r = few[(i % 3) as usize];
         check_optic::<B>(&u3.get_open(i / 3), Arc::new(r), &serde_json::json!(r), true, loc)
     }));
+    // boundaries of three objects (the block transposition and its inverse differ from three blocks on): all wirings
+    let specb = Spec { n_min: 1, n_max: 3, e_min: 0, e_max: 0, ks: 0, kt: 0, lw: 2, lx: 1, a: 3, b: 3, q: 0 };
+    let ub = specb.universe();
+    ctx.run_slice(Slice::new(format!("routing-boundaries-of-three[{} x 3 optics]", specb.name()), ub.count() * 3, |i, loc| {
+        let r = few[(i % 3) as usize];
+        check_optic::<B>(&ub.get_open(i / 3), Arc::new(r), &serde_json::json!(r), (i / 3) % 4 == 0, loc)
+    }));
+    let specb1 = Spec { n_min: 3, n_max: 4, e_min: 1, e_max: 1, ks: 2, kt: 2, lw: 1, lx: 2, a: 3, b: 3, q: 0 };
+    let ub1 = specb1.universe();
+    let capb = if quick { 150_000 } else { 3_000_000 };
+    ctx.run_slice(Slice::new(format!("routing-boundaries-of-three-with-operation[{} first {} x 1 optic]", specb1.name(), capb.min(ub1.count())), ub1.count().min(capb), |i, loc| {
+        let r = few[1];
+        check_optic::<B>(&ub1.get_open(i), Arc::new(r), &serde_json::json!(r), false, loc)
+    }));
     // functoriality
     let specp = if quick { Spec::open(2, 1, 1, 2, 1, 1, 1) } else { Spec::open(2, 1, 2, 2, 2, 1, 1) };
     let up = specp.universe().all_open();
